@@ -1145,3 +1145,80 @@ def c07_derived(ctx, cls, d):
     """(C07) an alignment stays the fit of its own source and target whatever
     is done to its pseudoinverse, copies and aligned source."""
     _derived_objects_do_not_alias(ctx, cls, d)
+
+
+# ------------------------------------------- C09: apply() is pure, every class
+def _all_transforms(T, S, rs, d):
+    out = []
+    L = np.eye(d) + 0.3 * rs.randn(d, d)
+    H = np.eye(d + 1); H[:d, :d] = L; H[:d, d] = rs.randn(d)
+    Hp = H.copy(); Hp[d, :d] = 0.05 * rs.randn(d)
+    out += [('Affine', T.Affine(H.copy())), ('Homogeneous', T.Homogeneous(Hp)), ('Translation', T.Translation(rs.randn(d))),
+            ('UniformScale', T.UniformScale(1.7, d)), ('NonUniformScale', T.NonUniformScale(1 + rs.rand(d))),
+            ('Chain', T.TransformChain([T.Translation(rs.randn(d)), T.Affine(H.copy()), T.UniformScale(0.5, d)]))]
+    Qm, _ = np.linalg.qr(rs.randn(d, d))
+    if np.linalg.det(Qm) < 0:
+        Qm[:, 0] *= -1
+    out.append(('Rotation', T.Rotation(Qm)))
+    Hs = np.eye(d + 1); Hs[:d, :d] = 1.3 * Qm; Hs[:d, d] = rs.randn(d)
+    out.append(('Similarity', T.Similarity(Hs)))
+    n = d + 3
+    src = rs.randn(n, d) * 2
+    tgt = src.dot(L.T) + 0.2 * rs.randn(n, d)
+    for c in ('AlignmentAffine', 'AlignmentSimilarity', 'AlignmentRotation', 'AlignmentTranslation', 'AlignmentUniformScale'):
+        out.append((c, getattr(T, c)(S.PointCloud(src.copy()), S.PointCloud(tgt.copy()))))
+    if d == 2:
+        out.append(('ThinPlateSplines', T.ThinPlateSplines(S.PointCloud(src.copy()), S.PointCloud(tgt.copy()))))
+        out.append(('R2LogR2RBF', T.R2LogR2RBF(src.copy())))
+        out.append(('R2LogRRBF', T.R2LogRRBF(src.copy())))
+        sq = np.array([[-6., -6.], [6., -6.], [-6., 6.], [6., 6.], [0., 0.5]])
+        out.append(('PiecewiseAffine', T.PiecewiseAffine(S.PointCloud(sq), S.PointCloud(sq * 1.2 + 0.3 * rs.randn(*sq.shape)))))
+    out.append(('WithDims', T.WithDims(list(range(d - 1)) if d > 2 else [1, 0])))
+    return out
+
+
+@contract('C09', 'apply_history_independence', level='bounded', native_samples=2, configs=[dict(d=2), dict(d=3)],
+          functions=['menpo.transform.base:Transform.apply', 'menpo.transform.thinplatesplines:ThinPlateSplines._apply', 'menpo.transform.rbf:R2LogR2RBF._apply',
+                     'menpo.transform.piecewiseaffine.base:CachedPWA.index_alpha_beta', 'menpo.transform.base.composable:TransformChain._apply'])
+def c09_apply_history(ctx, d):
+    """for EVERY transform class: apply(x) gives bit-identical numbers the
+    first time, again, after other inputs (arrays and shapes, other sizes,
+    batched) have been applied in between, after an array passed earlier was
+    edited in place, on a copy of the used transform, and for a fresh equal
+    array; the transform's own state does not change; inputs are not modified."""
+    from .state import state_of, compare_states
+    T, S = B.menpo_mods()
+    rs = ctx.nprng
+    for name, t in _all_transforms(T, S, rs, d):
+        x = rs.randn(6, d)
+        if name == 'PiecewiseAffine':
+            x = rs.uniform(-4, 4, size=(6, 2))
+        x0 = x.copy()
+        st = state_of(t) if name != 'PiecewiseAffine' else None        # (the caching PWA legitimately updates its memo)
+        first = np.array(t.apply(x), copy=True)
+        close(ctx, name + '/again', t.apply(x), first, 0)
+        others = [x[:2] * 0.5, x[::-1].copy(), x * 0.999999999 + 1e-12, S.PointCloud(x[:4] * 0.3)]
+        for o in others:
+            t.apply(o)
+            t.apply(o, batch_size=2)
+        close(ctx, name + '/after-other-inputs', t.apply(x), first, 0)
+        if name == 'PiecewiseAffine':
+            from menpo.transform.piecewiseaffine.base import TriangleContainmentError
+            bad = x.copy()
+            bad[1] = [40., 40.]
+            for k in range(2):          # a failing application, twice with equal values: fails both times, poisons nothing
+                ctx.check_true(name + '/out-of-domain-input-refused(call %d)' % k, ctx.raises(TriangleContainmentError, t.apply, bad.copy()))
+            close(ctx, name + '/after-a-refused-input', t.apply(x), first, 0)
+        y = x.copy()
+        r1 = t.apply(y)
+        y[...] = y * 0.25 + 0.1                     # edit an array that was passed earlier
+        close(ctx, name + '/after-in-place-edit-of-an-earlier-argument', t.apply(x), first, 0)
+        close(ctx, name + '/edited-array-gives-its-own-answer', t.apply(y), t.copy().apply(y.copy()) if hasattr(t, 'copy') else t.apply(y.copy()), 0)
+        close(ctx, name + '/fresh-equal-array', t.apply(x0.copy()), first, 0)
+        close(ctx, name + '/batched', t.apply(x, batch_size=4), first, 0)
+        close(ctx, name + '/through-a-shape', t.apply(S.PointCloud(x.copy())).points, first, 0)
+        if hasattr(t, 'copy'):
+            close(ctx, name + '/copy-of-the-used-transform', t.copy().apply(x), first, 0)
+        ctx.check_true(name + '/argument-not-modified', np.array_equal(x, x0))
+        if st is not None:
+            compare_states(ctx, name + '/transform-state-unchanged', state_of(t), st)
